@@ -37,6 +37,8 @@ def item_to_harness(it):
             out['blobkind'] = 'ascii' if it['op'] in (0, 1) else 'allbytes'
         else:
             out['pl'] = list(pl.get('s', []))
+        if it.get('z'):
+            out['z'] = True
         if it.get('ann') == 'huge':
             out['announce'] = 'huge63'
         if it.get('lenform'):
@@ -67,6 +69,8 @@ def script_to_scenario(script, cfg, naddr=1, mech='break'):
           "ping_timeout": cfg.get('ping_timeout') or None, "close_timeout": cfg.get('close_timeout') or None,
           "auto_pong": bool(cfg.get('auto_pong', True))}
     sc = {"conns": [conn], "react": react, "connect_kwargs": ck}
+    if script.get('compress'):
+        sc['ws_kwargs'] = {"compress": True}
     if with_block:
         sc['with_block'] = True
     return sc
